@@ -507,24 +507,13 @@ func ValidateHostList(s string) Validity {
 }
 
 // ValidateArgs gives the validity of a complete, correctly typed argument
-// list (strings in order; booleans are skipped by the caller passing "").
-func ValidateArgs(kinds []Kind, strs []string) Validity {
+// list (strs[i] is the content of the i-th argument; ignored for booleans) and
+// the index of the first argument that makes it Invalid (-1 otherwise).
+func ValidateArgs(kinds []Kind, strs []string) (Validity, int) {
 	res := Valid
-	merge := func(v Validity) bool {
-		if v == Invalid {
-			res = Invalid
-			return true
-		}
-		if v == Unspecified {
-			res = Unspecified
-		}
-		return false
-	}
 	for i, k := range kinds {
-		var v Validity
+		v := Valid
 		switch k {
-		case KStr, KBool, KIPEnd, KTimeEnd:
-			v = Valid
 		case KHostList:
 			v = ValidateHostList(strs[i])
 		case KIPList:
@@ -540,15 +529,122 @@ func ValidateArgs(kinds []Kind, strs []string) Validity {
 		case KTimeOfDay:
 			if i+2 < len(kinds) && kinds[i+1] == KTimeOfDay {
 				v = ValidatePeriodic(strs[i], strs[i+1], strs[i+2])
-			} else {
-				v = Valid
 			}
-		case KPeriod:
-			v = Valid
 		}
-		if merge(v) {
-			return Invalid
+		if v == Invalid {
+			return Invalid, i
+		}
+		if v == Unspecified {
+			res = Unspecified
 		}
 	}
-	return res
+	return res, -1
+}
+
+// ---- formatting helpers for the generators -----------------------------------
+
+// civilFromDays is the inverse of daysFromCivil.
+func civilFromDays(z int64) (y, m, d int) {
+	z += 719468
+	var era int64
+	if z >= 0 {
+		era = z / 146097
+	} else {
+		era = (z - 146096) / 146097
+	}
+	doe := z - era*146097
+	yoe := (doe - doe/1460 + doe/36524 - doe/146096) / 365
+	yy := yoe + era*400
+	doy := doe - (365*yoe + yoe/4 - yoe/100)
+	mp := (5*doy + 2) / 153
+	d = int(doy - (153*mp+2)/5 + 1)
+	if mp < 10 {
+		m = int(mp + 3)
+	} else {
+		m = int(mp - 9)
+	}
+	if m <= 2 {
+		yy++
+	}
+	return int(yy), m, d
+}
+
+func pad(n, w int) string {
+	s := ""
+	for i := 0; i < w; i++ {
+		s = string(rune('0'+n%10)) + s
+		n /= 10
+	}
+	return s
+}
+
+// FormatTime renders the instant as yyyymmddhhmmssZ in the given zone letter.
+func FormatTime(unix int64, zone byte) string {
+	off, _ := ZoneOffset(zone)
+	local := unix + int64(off)*3600
+	days := local / 86400
+	sec := local % 86400
+	if sec < 0 {
+		sec += 86400
+		days--
+	}
+	y, m, d := civilFromDays(days)
+	return pad(y, 4) + pad(m, 2) + pad(d, 2) + pad(int(sec/3600), 2) + pad(int(sec%3600/60), 2) + pad(int(sec%60), 2) + string(zone)
+}
+
+// FormatTimeOfDay renders seconds since midnight as hhmmssZ.
+func FormatTimeOfDay(sec int, zone byte) string {
+	return pad(sec/3600, 2) + pad(sec%3600/60, 2) + pad(sec%60, 2) + string(zone)
+}
+
+// FormatIP renders a 16-byte address: dotted quad when v4 (bytes 12..15),
+// else eight uncompressed hexadecimal groups.
+func FormatIP(ip [16]byte, v4 bool) string {
+	if v4 {
+		return itoa(int(ip[12])) + "." + itoa(int(ip[13])) + "." + itoa(int(ip[14])) + "." + itoa(int(ip[15]))
+	}
+	const hex = "0123456789abcdef"
+	s := ""
+	for i := 0; i < 16; i += 2 {
+		if i > 0 {
+			s += ":"
+		}
+		n := int(ip[i])<<8 | int(ip[i+1])
+		g := ""
+		for n > 0 || g == "" {
+			g = string(hex[n&15]) + g
+			n >>= 4
+		}
+		s += g
+	}
+	return s
+}
+
+func itoa(n int) string {
+	if n == 0 {
+		return "0"
+	}
+	s := ""
+	for n > 0 {
+		s = string(rune('0'+n%10)) + s
+		n /= 10
+	}
+	return s
+}
+
+// AddIP adds delta to the address (within the low `width` bytes: 4 for IPv4,
+// 16 for IPv6); ok=false on overflow/underflow.
+func AddIP(ip [16]byte, delta int, v4 bool) (out [16]byte, ok bool) {
+	out = ip
+	lo := 0
+	if v4 {
+		lo = 12
+	}
+	carry := delta
+	for i := 15; i >= lo && carry != 0; i-- {
+		v := int(out[i]) + carry
+		out[i] = byte(v & 0xff)
+		carry = v >> 8
+	}
+	return out, carry == 0
 }
